@@ -1,8 +1,24 @@
 """C04: the quota is the prescribed one, and whoever reaches it is elected."""
 from props import countcheck as cc
 ORACLES = ['c04']
+def tweak(rng, e, o):
+    """for the parametric rules, one case in four carries its arithmetic options in the ballot file ([droop ...] groups, the
+    caller passes only the rule) -- zero values included, which the file layer must honour like any other"""
+    if o['rule'] not in ('wigm', 'meek', 'warren') or rng.random() >= 0.25: return
+    if o.get('arithmetic') == 'rational' or e.get('family') == 'exactquota': return
+    keys = [k for k in ('arithmetic', 'precision', 'guard', 'display', 'omega', 'integer_quota', 'defeat_batch') if k in o]
+    grp = ['%s=%s' % (k, 'true' if o[k] is True else o[k]) for k in keys]
+    for k in keys: del o[k]
+    if rng.random() < 0.4 and not any(g.startswith('arithmetic=') for g in grp):
+        # (precision=0 is integer arithmetic, which meek and warren refuse by assertion: wigm only)
+        grp = rng.choice([['arithmetic=guarded', 'precision=%d' % rng.choice([3, 6]), 'guard=0'], ['precision=%d' % rng.choice([4, 8]), 'guard=0']] +
+                         ([['arithmetic=fixed', 'precision=0']] if o['rule'] == 'wigm' else []))
+    if grp:
+        k = rng.randint(0, len(grp))
+        e['droop'] = [g for g in (grp[:k], grp[k:]) if g]
+
 def run(chk, ctx):
     chk.cov['rule'] = ("random elections weighted to near-quota totals (ballots = 0,+-1 mod seats+1) and to surplus transfers that land a candidate EXACTLY on the quota (searched per rule precision and quota formula) x all rules x arithmetics; scope: quota, "
                        "votes and statuses of every action; oracle: quota formula recomputed in Fraction, nobody holding a quota is excluded")
-    cc.run(chk, ctx, 'quota', ORACLES, 1000, 100000, families=['nearquota', 'nearquota', 'exactquota', 'exactquota', 'small', 'tie', 'chain', 'coalition', 'hugemult'])
+    cc.run(chk, ctx, 'quota', ORACLES, 1000, 100000, families=['nearquota', 'nearquota', 'exactquota', 'exactquota', 'small', 'tie', 'chain', 'coalition', 'hugemult'], tweak=tweak)
 def replay(chk, payload): return cc.replay(chk, payload, ORACLES)
